@@ -173,6 +173,9 @@ int __wrap_connect(int fd, const struct sockaddr *a, socklen_t l)
     const char *pn[] = { "inprogress-ok", "ok-now", "syncfail", "inprogress-refuse-hup", "inprogress-refuse-soerr", "inprogress-pending" };
     tr("CONNECT %s addr=%u plan=%s host=%.7s", kname(v), (unsigned)(ntohl(((const struct sockaddr_in *)a)->sin_addr.s_addr) - 0x7f000001), pn[plan],
        ((const struct sockaddr_in *)a)->sin_zero[0] ? (const char *)((const struct sockaddr_in *)a)->sin_zero : "-");
+    /* a connect() on a descriptor that is still blocking parks the whole select loop for the kernel's SYN retries when the
+       peer is silent: the virtual OS cannot block, it reports the call */
+    if (!v->nonblock) tr("BLOCKING connect %s", kname(v));
     switch (plan) {
     case CP_OK_NOW: v->cs = CS_OK; return 0;
     case CP_SYNCFAIL: errno = ENETUNREACH; return -1;
